@@ -82,6 +82,9 @@ def _dstr(n):
     return "".join(f"{v}{u}" for v, u in ((d, "d"), (h, "h"), (m, "m"), (s_, "s")) if v) or "0s"
 
 
+_NO_RESULT = object()
+
+
 def ttl_py(spelling, ticks):
     whole = ticks % 16 == 0
     n = ticks // 16 if whole else ticks / 16
@@ -95,8 +98,9 @@ def ttl_py(spelling, ticks):
             return n
         return g
     if spelling == "callable_result":
-        def f(*a, result=None, **k):
-            return _td(ticks)
+        # the TTL is a function of the RESULT, received through an optional parameter: without the real result it would be another TTL
+        def f(*a, result=_NO_RESULT, **k):
+            return _td(ticks) if result is not _NO_RESULT else _td(1)
         return f
     raise KeyError(spelling)
 
